@@ -104,18 +104,18 @@ theorem hasTag_good {s : Schema} {w : World} {a b : Expr} {caps : Capabilities} 
         · rw [if_pos hcap, cap_tag_true hc hcap hev]; rfl
         · rw [if_neg hcap]; simp [boolInst, boolT]
 
-theorem lubAll_single (t : CedarType) : lubAll .strict [t] = some t := by
+theorem lubAll_single (m : ValidationMode) (t : CedarType) : lubAll m [t] = some t := by
   unfold lubAll
   simp only [List.foldl_cons, List.foldl_nil, Option.bind_some]
   rw [lub.eq_def]
   simp [isSubtype]
 
-theorem getTag_good {s : Schema} {w : World} {a b : Expr} {caps : Capabilities} {T : EntityType} {τb τ : CedarType}
+theorem getTag_good {m : ValidationMode} {s : Schema} {w : World} {a b : Expr} {caps : Capabilities} {T : EntityType} {τb τ : CedarType}
     {ca cb c' : Capabilities} (hWF : SchemaWF s)
     (h : (if caps.has (Capability.tag a b) = true then
             (match tagTypes s [T] with
              | [] => (.error .fail : TcResult)
-             | ts => match lubAll .strict ts with
+             | ts => match lubAll m ts with
                | some τ => ok τ
                | none => .error .fail)
           else .error .fail) = .ok (τ, c')) :
